@@ -40,7 +40,7 @@ class Outcome:
         self.original: Dict[int, int] = {}
 
 
-def run_case(c: Case) -> Outcome:
+def run_case(c: Case, large_count: bool = False) -> Outcome:
     o = Outcome()
     ins, err = drv.py_decode(c.data, c.addr)
     if ins is None:
@@ -79,7 +79,12 @@ def run_case(c: Case) -> Outcome:
         return st
 
     try:
-        o.ref = mkref()
+        isa.LENIENT[0], isa.WRAPPED[0] = bool(large_count), False
+        try:
+            o.ref = mkref()
+        finally:
+            isa.LENIENT[0] = False
+        o.wrapped = isa.WRAPPED[0]  # type: ignore[attr-defined]
         if "DADL-carry-in" in o.ref.undef:
             o.ref_alt = mkref(0)
         ptrs = {IMEM_BASE + 0xEC, IMEM_BASE + 0xED, IMEM_BASE + 0xEE}
@@ -171,3 +176,33 @@ def access_diffs(o: Outcome, c: Case) -> List[Tuple[str, str]]:
         out.append(("does-not-write-denoted-destination", f"never writes {[hex(a) for a in mw[:4]]} denoted by the destination operand "
                                                           f"(wrote {[hex(a) for a in sorted(writes)[:4]]})"))
     return out
+
+
+def large_count_diffs(o: Outcome, c: Case) -> Tuple[List[Tuple[str, str]], List[Tuple[str, str]]]:
+    """For counted transfers with I > 256 (the internal side leaves its 256-byte space, which is not documented):
+    (C03 part) the external addresses read/written are exactly the I consecutive ones the operand denotes;
+    (C04 part) I ends at 0 and an auto-modified pointer has moved by I."""
+    st = o.ref
+    if o.py.get("err"):
+        return [("python-raises", f"execution raised {o.py['err']}")], []
+    reads, writes = py_accesses(o, c)
+    ext = lambda xs: {a for a in xs if a < IMEM_BASE}  # noqa: E731
+    acc: List[Tuple[str, str]] = []
+    D, W = ext(st.data_reads), ext(st.writes)
+    R, Wp = ext(reads), ext(writes)
+    if R - D - ext(st.addr_reads) - W:
+        acc.append(("large-count/reads-location-not-denoted", f"reads {len(R - D)} external bytes outside the denoted range, e.g. {[hex(a) for a in sorted(R - D)[:3]]}"))
+    if D - R - W:
+        acc.append(("large-count/does-not-read-denoted-source", f"I={c.regs.get('I'):#x}: {len(D - R)} of the {len(D)} denoted external source bytes are never read, "
+                                                               f"e.g. {[hex(a) for a in sorted(D - R)[:3]]}"))
+    if Wp - W:
+        acc.append(("large-count/writes-location-not-denoted", f"writes {len(Wp - W)} external bytes outside the denoted range, e.g. {[hex(a) for a in sorted(Wp - W)[:3]]}"))
+    if W - Wp:
+        acc.append(("large-count/does-not-write-denoted-destination", f"I={c.regs.get('I'):#x}: {len(W - Wp)} of the {len(W)} denoted external destination bytes are "
+                                                                      f"never written, e.g. {[hex(a) for a in sorted(W - Wp)[:3]]}"))
+    val: List[Tuple[str, str]] = []
+    pr = o.py["regs"]
+    for r in ("I", "X", "Y", "U", "S"):
+        if pr[r] != st.regs[r]:
+            val.append((f"large-count/reg:{r}", f"I={c.regs.get('I'):#x}: {r} = {pr[r]:#x}, documented result {st.regs[r]:#x}"))
+    return acc, val
